@@ -168,45 +168,33 @@ theorem word_all (hw : IsIntWidth w) (sg : Bool) (l m orig data : BitVec w) (h1 
   · exact word32 sg l m orig data (BitVec.le_def.mpr h1) (BitVec.le_def.mpr (by simp; omega))
   · exact word64 sg l m orig data (BitVec.le_def.mpr h1) (BitVec.le_def.mpr (by simp; omega))
 
-/-! ### Macro-time `i64` min/max, cast `as ty` -/
+/-! ### Macro-time (`i128`) min/max, cast `as ty` -/
 
-/-- when the macro-time arithmetic does not overflow, the casts of its results are the words
-`minW`/`maxW` -/
+/-- the casts `min as ty` / `max as ty` of the macro-time values are the words `minW`/`maxW` -/
 def minMaxOk (w : Nat) (sg : Bool) (lsb msb : Nat) : Bool :=
-  match bfMinI64 sg lsb msb, bfMaxI64 sg lsb msb with
-  | some mn, some mx => BitVec.ofInt w mn == minW sg w lsb msb && BitVec.ofInt w mx == maxW sg w lsb msb
-  | _, _ => true
+  BitVec.ofInt w (bfMin sg lsb msb) == minW sg w lsb msb &&
+  BitVec.ofInt w (bfMax sg lsb msb) == maxW sg w lsb msb
 
 theorem minMax8 : ∀ sg : Bool, ∀ msb < 8, ∀ lsb ≤ msb, minMaxOk 8 sg lsb msb = true := by decide +kernel
 theorem minMax16 : ∀ sg : Bool, ∀ msb < 16, ∀ lsb ≤ msb, minMaxOk 16 sg lsb msb = true := by decide +kernel
 theorem minMax32 : ∀ sg : Bool, ∀ msb < 32, ∀ lsb ≤ msb, minMaxOk 32 sg lsb msb = true := by decide +kernel
 theorem minMax64 : ∀ sg : Bool, ∀ msb < 64, ∀ lsb ≤ msb, minMaxOk 64 sg lsb msb = true := by decide +kernel
 
-theorem minMax_all (hw : IsIntWidth w) (sg : Bool) (lsb msb : Nat) (h : lsb ≤ msb) (hm : msb < w)
-    (mn mx : Int) (hmn : bfMinI64 sg lsb msb = some mn) (hmx : bfMaxI64 sg lsb msb = some mx) :
-    BitVec.ofInt w mn = minW sg w lsb msb ∧ BitVec.ofInt w mx = maxW sg w lsb msb := by
+theorem minMax_all (hw : IsIntWidth w) (sg : Bool) (lsb msb : Nat) (h : lsb ≤ msb) (hm : msb < w) :
+    BitVec.ofInt w (bfMin sg lsb msb) = minW sg w lsb msb ∧
+    BitVec.ofInt w (bfMax sg lsb msb) = maxW sg w lsb msb := by
   have key : minMaxOk w sg lsb msb = true := by
     rcases hw with rfl | rfl | rfl | rfl
     · exact minMax8 sg msb hm lsb h
     · exact minMax16 sg msb hm lsb h
     · exact minMax32 sg msb hm lsb h
     · exact minMax64 sg msb hm lsb h
-  simpa [minMaxOk, hmn, hmx] using key
-
-/-- which declarations get through the macro (F-C20-3): everything up to 32 bit; for 64-bit
-types not the signed 64-bit-wide field and not unsigned fields of 63 or 64 bits. -/
-theorem compiles_iff (sg : Bool) (lsb msb : Nat) (h : lsb ≤ msb) (hm : msb < 64) :
-    ((bfMinI64 sg lsb msb).isSome ∧ (bfMaxI64 sg lsb msb).isSome) ↔
-      (if sg then msb - lsb < 63 else msb - lsb + 1 < 63) := by
-  have : ∀ sg : Bool, ∀ msb < 64, ∀ lsb ≤ msb,
-      decide ((bfMinI64 sg lsb msb).isSome ∧ (bfMaxI64 sg lsb msb).isSome) =
-      decide (if sg then msb - lsb < 63 else msb - lsb + 1 < 63) := by decide +kernel
-  exact decide_eq_decide.mp (this sg msb hm lsb h)
+  simpa [minMaxOk] using key
 
 /-! ### The model-level word theorem -/
 
 theorem bf_word (hw : IsIntWidth w) (sg : Bool) (lsb msb : Nat) (h : lsb ≤ msb) (hm : msb < w)
-    (mn mx : Int) (hmn : bfMinI64 sg lsb msb = some mn) (hmx : bfMaxI64 sg lsb msb = some mx)
+    (mn mx : Int) (hmn : mn = bfMin sg lsb msb) (hmx : mx = bfMax sg lsb msb)
     (orig data : BitVec w) :
     bfMask sg w lsb msb = specMask w lsb msb ∧
     (bfOutOfRange sg data (BitVec.ofInt w mn) (BitVec.ofInt w mx) = false →
@@ -214,7 +202,8 @@ theorem bf_word (hw : IsIntWidth w) (sg : Bool) (lsb msb : Nat) (h : lsb ≤ msb
         bfExtract sg w lsb msb (bfMerge sg w lsb msb orig d) = data ∧
         bfMerge sg w lsb msb orig d &&& ~~~(specMask w lsb msb) = orig &&& ~~~(specMask w lsb msb)) := by
   have hp := lt_pow w
-  obtain ⟨hmin, hmax⟩ := minMax_all hw sg lsb msb h hm mn mx hmn hmx
+  subst hmn hmx
+  obtain ⟨hmin, hmax⟩ := minMax_all hw sg lsb msb h hm
   -- positions as words
   have hl : (BitVec.ofNat w lsb).toNat = lsb := by rw [BitVec.toNat_ofNat, Nat.mod_eq_of_lt (by omega)]
   have hmm : (BitVec.ofNat w msb).toNat = msb := by rw [BitVec.toNat_ofNat, Nat.mod_eq_of_lt (by omega)]
@@ -223,7 +212,7 @@ theorem bf_word (hw : IsIntWidth w) (sg : Bool) (lsb msb : Nat) (h : lsb ≤ msb
   subst hl hmm
   obtain ⟨hmask, hrt⟩ := word_all hw sg l m orig data h hm
   refine ⟨by rw [bridge_mask sg l m hm, bridge_spec l m h hm]; exact hmask, fun hin => ?_⟩
-  have hd : bfMaskedInt sg w l.toNat m.toNat mn mx data =
+  have hd : bfMaskedInt sg w l.toNat m.toNat (bfMin sg l.toNat m.toNat) (bfMax sg l.toNat m.toNat) data =
       .ok ((data <<< l.toNat) &&& bfMask sg w l.toNat m.toNat) := by
     simp [bfMaskedInt, hin]
   have hin' : (if sg then data.slt (min' sg l m) || (max' sg l m).slt data
@@ -257,7 +246,7 @@ theorem readWord_word (hw : IsIntWidth w) (e : Endian) (x : BitVec w) :
 
 /-- The generated bit-field `write` followed by `read`, on the byte image. -/
 theorem bf_mem (hw : IsIntWidth w) (e : Endian) (sg : Bool) (lsb msb : Nat) (h : lsb ≤ msb) (hm : msb < w)
-    (mn mx : Int) (hmn : bfMinI64 sg lsb msb = some mn) (hmx : bfMaxI64 sg lsb msb = some mx)
+    (mn mx : Int) (hmn : mn = bfMin sg lsb msb) (hmx : mx = bfMax sg lsb msb)
     (address : Nat) (ar : AccessRight) (memory : Bytes) (hin : address + w / 8 ≤ memory.length)
     (data : BitVec w)
     (hr : bfOutOfRange sg data (BitVec.ofInt w mn) (BitVec.ofInt w mx) = false) :
@@ -319,45 +308,15 @@ theorem bf_refused (e : Endian) (sg : Bool) (lsb msb : Nat) (mn mx : Int) (addre
 
 /-! ### The range `[min, max]` read as integers -/
 
-theorem minmax_closed (sg : Bool) (lsb msb : Nat) (mn mx : Int)
-    (hmn : bfMinI64 sg lsb msb = some mn) (hmx : bfMaxI64 sg lsb msb = some mx) :
-    mn = (if sg then -(2 : Int) ^ (msb - lsb) else 0) ∧
-    mx = (if sg then (2 : Int) ^ (msb - lsb) - 1 else (2 : Int) ^ (msb - lsb + 1) - 1) := by
-  have hpos : ∀ k : Nat, (0 : Int) < 2 ^ k := fun k => Int.pow_pos (by decide)
-  cases sg
-  · simp only [bfMinI64, Bool.false_eq_true, if_false, Option.some.injEq] at hmn
-    simp only [bfMaxI64, Bool.false_eq_true, if_false, i64Min] at hmx
-    refine ⟨by simp [← hmn], ?_⟩
-    by_cases h1 : msb - lsb + 1 ≥ 64
-    · rw [if_pos h1] at hmx; cases hmx
-    · rw [if_neg h1] at hmx
-      by_cases h2 : msb - lsb + 1 = 63
-      · rw [if_pos h2, if_pos (by omega)] at hmx; cases hmx
-      · have := hpos (msb - lsb + 1)
-        rw [if_neg h2, if_neg (by omega)] at hmx
-        simp only [Option.some.injEq] at hmx
-        simp [← hmx]
-  · simp only [bfMinI64, if_true] at hmn
-    simp only [bfMaxI64, if_true] at hmx
-    have hI : i64Min = -(2 : Int) ^ 63 := rfl
-    by_cases h1 : msb - lsb ≥ 64
-    · simp only [if_pos h1] at hmn; cases hmn
-    · simp only [if_neg h1] at hmn hmx
-      by_cases h2 : msb - lsb = 63
-      · simp only [if_pos h2, if_true] at hmn; cases hmn
-      · have := hpos (msb - lsb)
-        simp only [if_neg h2] at hmn hmx
-        rw [if_neg (by rw [hI]; omega)] at hmn
-        rw [if_neg (by rw [hI]; omega)] at hmx
-        simp only [Option.some.injEq] at hmn hmx
-        simp [← hmn, ← hmx]
-
 /-- the range check of `masked_int`, read as integers -/
 theorem oor_iff (hw : IsIntWidth w) (sg : Bool) (lsb msb : Nat) (h : lsb ≤ msb) (hm : msb < w) (mn mx : Int)
-    (hmn : bfMinI64 sg lsb msb = some mn) (hmx : bfMaxI64 sg lsb msb = some mx) (data : BitVec w) :
+    (hmn : mn = bfMin sg lsb msb) (hmx : mx = bfMax sg lsb msb) (data : BitVec w) :
     bfOutOfRange sg data (BitVec.ofInt w mn) (BitVec.ofInt w mx) = false ↔
       (if sg then mn ≤ data.toInt ∧ data.toInt ≤ mx else (data.toNat : Int) ≤ mx) := by
-  obtain ⟨h1, h2⟩ := minmax_closed sg lsb msb mn mx hmn hmx
+  have h1 : mn = (if sg then -(2 : Int) ^ (msb - lsb) else 0) := by rw [hmn, bfMin]
+  have h2 : mx = (if sg then (2 : Int) ^ (msb - lsb) - 1 else (2 : Int) ^ (msb - lsb + 1) - 1) := by
+    rw [hmx, bfMax]
+  clear hmn hmx
   have hpos : ∀ k : Nat, (0 : Int) < 2 ^ k := fun k => Int.pow_pos (by decide)
   have hw0 : 0 < w := by rcases hw with rfl | rfl | rfl | rfl <;> decide
   cases sg
